@@ -20,7 +20,11 @@ func childMain(dir string) {
 		fmt.Println("bad spec:", err)
 		os.Exit(3)
 	}
-	w := buildWorld(sp, dir)
+	wdir := dir
+	if sp.Phase == "follow" && sp.FollowDir != "" {
+		wdir = sp.FollowDir // operate on the tree a killed run left behind
+	}
+	w := buildWorld(sp, wdir)
 	if sp.Phase == "readers" {
 		readersChild(w)
 		return
